@@ -4,11 +4,7 @@ package main
 import (
 	"errors"
 	"fmt"
-	"go/ast"
-	"go/token"
 	"os"
-	"path/filepath"
-	"regexp"
 	"sort"
 	"strconv"
 	"strings"
@@ -19,7 +15,6 @@ import (
 	"github.com/pinealctx/neptune/vcode"
 
 	"nvharness/lib/corr"
-	"nvharness/lib/gofacts"
 	_ "nvharness/lib/quiet"
 	"nvharness/lib/rng"
 )
@@ -37,199 +32,6 @@ func main() {
 	default:
 		os.Exit(2)
 	}
-}
-
-// ---------------------------------------------------------------- extract
-
-var keyRe = regexp.MustCompile(`^\{ var _v0 = fmt\.Sprintf\("([^"]*)", areaCode, phone\) `)
-
-// keyFmt classifies the key line of the canonical body of SendSMSCode / VerifySMSCode (_v0 is the key variable,
-// assigned exactly once).
-func keyFmt(body string) string {
-	m := keyRe.FindStringSubmatch(body)
-	if m == nil || strings.Count(body, "_v0 =") != 1 {
-		return "unknown"
-	}
-	switch m[1] {
-	case "%s-%s":
-		return "dash"
-	case "%s%s":
-		return "plain"
-	}
-	return "unknown"
-}
-
-// canon returns the normalised body of a function with its local variables (var / := / range declarations, not the
-// parameters) renamed to _v0, _v1, … in order of declaration, so that renaming a local does not change a fact.
-// It rewrites the identifiers of that declaration in place: use only canon (not Body) on a function afterwards.
-func canon(f *gofacts.File, fd *ast.FuncDecl) string {
-	if fd == nil || fd.Body == nil {
-		return ""
-	}
-	names := map[string]string{}
-	add := func(e ast.Expr) {
-		if id, ok := e.(*ast.Ident); ok && id.Name != "_" {
-			if _, seen := names[id.Name]; !seen {
-				names[id.Name] = fmt.Sprintf("_v%d", len(names))
-			}
-		}
-	}
-	ast.Inspect(fd.Body, func(n ast.Node) bool {
-		switch x := n.(type) {
-		case *ast.ValueSpec:
-			for _, id := range x.Names {
-				add(id)
-			}
-		case *ast.AssignStmt:
-			if x.Tok == token.DEFINE {
-				for _, l := range x.Lhs {
-					add(l)
-				}
-			}
-		case *ast.RangeStmt:
-			if x.Tok == token.DEFINE {
-				if x.Key != nil {
-					add(x.Key)
-				}
-				if x.Value != nil {
-					add(x.Value)
-				}
-			}
-		}
-		return true
-	})
-	var ren func(n ast.Node)
-	ren = func(n ast.Node) {
-		ast.Inspect(n, func(m ast.Node) bool {
-			switch x := m.(type) {
-			case *ast.SelectorExpr: // never a field / method name
-				ren(x.X)
-				return false
-			case *ast.KeyValueExpr: // never a struct-literal field name
-				ren(x.Value)
-				return false
-			case *ast.Ident:
-				if nn, ok := names[x.Name]; ok {
-					x.Name = nn
-				}
-			}
-			return true
-		})
-	}
-	ren(fd.Body)
-	return f.Src(fd.Body)
-}
-
-// stmts returns the normalised statements of a function body (top level only).
-func stmts(f *gofacts.File, fd *ast.FuncDecl) []string {
-	var out []string
-	if fd == nil || fd.Body == nil {
-		return out
-	}
-	for _, st := range fd.Body.List {
-		out = append(out, f.Src(st))
-	}
-	return out
-}
-
-func sameSet(got []string, want ...string) bool {
-	if len(got) != len(want) {
-		return false
-	}
-	a := append([]string{}, got...)
-	b := append([]string{}, want...)
-	sort.Strings(a)
-	sort.Strings(b)
-	for i := range a {
-		if a[i] != gofacts.Norm(b[i]) {
-			return false
-		}
-	}
-	return true
-}
-
-func extract(repo, leanDir string) {
-	vl := gofacts.MustLoad(repo, "vcode/vlogic.go")
-	cd := gofacts.MustLoad(repo, "vcode/code.go")
-	ut := gofacts.MustLoad(repo, "idgen/random/util.go")
-	// bodies with local variables renamed to _v0, _v1, … (parameters and receivers keep their names)
-	sendBody := canon(vl, vl.Func("sender", "SendSMSCode"))
-	verBody := canon(vl, vl.Func("sender", "VerifySMSCode"))
-	sendFmt, verFmt := keyFmt(sendBody), keyFmt(verBody)
-
-	// genNonceStr: the argument of fn(…); _v0 = builder, _v1 = len(baseStr), _v2 = index, _v3 = loop counter
-	nonce := canon(ut, ut.Func("", "genNonceStr"))
-	bound := "unknown"
-	const noncePre = "{ var _v0 strings.Builder var _v1 = len(baseStr) var _v2 int for _v3 := 0; _v3 < length; _v3++ { _v2 = fn("
-	const noncePost = ") _v0.WriteByte(baseStr[_v2]) } return _v0.String() }"
-	nonceLoop := strings.HasPrefix(nonce, noncePre) && strings.HasSuffix(nonce, noncePost) && len(nonce) >= len(noncePre)+len(noncePost) &&
-		gofacts.Has(canon(ut, ut.Func("", "SecGenNonceStr")), "var _v4 = rand.New(_v3) return genNonceStr(baseStr, length, _v4.Intn) }")
-	if nonceLoop {
-		switch nonce[len(noncePre) : len(nonce)-len(noncePost)] {
-		case "_v1 - 1":
-			bound = "lenMinus1"
-		case "_v1":
-			bound = "len"
-		}
-	}
-
-	// checkVerify (_v0 = now)
-	cv := canon(vl, vl.Func("sender", "checkVerify"))
-	const retryIf = "if c.verifyCount > s.MaxVerifyCount { return ErrVerifyCodeRetryLimit }"
-	const codeIf = "if c.code != code { return ErrVerifyCodeNotMatch }"
-	const hashIf = "if c.hash != hash { return ErrVerifyCodeHashNotMatch }"
-	const ttlIf = "var _v0 = time.Now() if _v0.Sub(c.setTime) > s.TTL.Duration() { return ErrVerifyCodeTimeout } return nil }"
-	countsFirst := strings.HasPrefix(cv, "{ c.updateVerify() "+retryIf) &&
-		cd.Body("vCache", "updateVerify") == "{ c.verifyCount++ }" && strings.Count(cv, "verifyCount") == 1 &&
-		strings.Count(cv, "updateVerify") == 1
-	verifyOrder := gofacts.Before(cv, retryIf, codeIf) && gofacts.Before(cv, codeIf, hashIf) && gofacts.Before(cv, hashIf, ttlIf) &&
-		strings.HasSuffix(cv, ttlIf) && strings.Count(cv, "return") == 5
-
-	// updateSend: the five assignments in any order
-	updateSend := sameSet(stmts(cd, cd.Func("vCache", "updateSend")),
-		"c.code = code", "c.hash = random.MD5UUID()", "c.setTime = now", "c.sendCount++", "c.verifyCount = 0") &&
-		gofacts.Has(cd.Body("", "newSenderCache"), "return &vCache{counterTime: now}")
-
-	// checkSend (no locals)
-	cs := vl.Body("sender", "checkSend")
-	checkSend := cs == gofacts.Norm("{ if now.Sub(c.setTime) < s.MinInterval.Duration() { return ErrSendTooFreq } "+
-		"if now.Sub(c.counterTime) > s.CounterDuration.Duration() { c.refresh(now) return nil } "+
-		"if c.sendCount > s.MaxCount { return ErrSendCountLimit } return nil }") &&
-		sameSet(stmts(cd, cd.Func("vCache", "refresh")), "c.counterTime = now", "c.sendCount = 0")
-
-	// SendSMSCode / VerifySMSCode flow after the key line (_v0 key, _v1 now, _v2 entry, _v3 err, _v4 code)
-	sendFlow := strings.HasSuffix(sendBody, ", areaCode, phone) var _v1 = time.Now() var _v2 = s.fetchCache(_v0, true) if _v2 == nil { _v2 = newSenderCache(_v1) } "+
-		"var _v3 = s.checkSend(_v2, _v1) if _v3 != nil { return \"\", _v3 } var _v4 = s.genCode(phone) _v2.updateSend(_v4, _v1) "+
-		"s.cacheM.Set(_v0, _v2) if !s.Mock { _v3 = s.sms.SendCode(areaCode, phone, _v4) } return _v2.hash, _v3 }") && strings.Count(sendBody, "areaCode, phone") == 2
-	verifyFlow := strings.HasSuffix(verBody, ", areaCode, phone) var _v1 = s.fetchCache(_v0, false) if _v1 == nil { return ErrVerifyCodeNotExist } return s.checkVerify(_v1, code, hash) }") &&
-		strings.Count(verBody, "areaCode, phone") == 1
-
-	// genCode (_v0 = len(phone), _v1 = padded code, _v2 = loop counter)
-	genCode := canon(vl, vl.Func("sender", "genCode")) == "{ if !s.Mock { return random.SecGenNonceStr(numChars, s.CodeLen) } var _v0 = len(phone) "+
-		"if _v0 >= s.CodeLen { return phone[_v0-s.CodeLen:] } var _v1 = phone for _v2 := 0; _v2 < s.CodeLen-_v0; _v2++ { _v1 = fmt.Sprintf(\"0%s\", _v1) } return _v1 }" &&
-		regexp.MustCompile(`numChars\s*=\s*"0123456789"`).MatchString(vl.Src(vl.AST))
-
-	// the logic's own cache; fetchCache (_v0 = fn, _v1 = item, _v2 = ok)
-	ownCache := gofacts.Has(vl.Body("", "NewSimpleLogic"), "cacheM: NewSimpleCache(config.CacheSize)") &&
-		strings.HasPrefix(canon(vl, vl.Func("sender", "fetchCache")), "{ var _v0 = s.cacheM.Get if peek { _v0 = s.cacheM.Peek } var _v1, _v2 = _v0(key) if !_v2 { return nil } ") &&
-		canon(vl, vl.Func("simpleCache", "Set")) == "{ var _v0, _v1 = value.(cache.Value) if _v1 { s.lru.Set(key, _v0) } }" &&
-		gofacts.Has(vl.Body("simpleCache", "Get"), "return s.lru.Get(key)") && gofacts.Has(vl.Body("simpleCache", "Peek"), "return s.lru.Peek(key)")
-
-	b := gofacts.LeanBool
-	out := fmt.Sprintf(`import Nv.Model.C19
-set_option linter.unusedVariables false
-/-! GENERATED by `+"`c19 extract`"+` from vcode/vlogic.go, vcode/code.go, idgen/random/util.go — do not edit. -/
-namespace Nv.Gen.C19
-def cfg : Nv.C19.Cfg := ⟨.%s, .%s, .%s⟩
-def facts : Nv.C19.Facts := ⟨%s, %s, %s, %s, %s, %s, %s, %s, %s⟩
-end Nv.Gen.C19
-`, sendFmt, verFmt, bound, b(countsFirst), b(verifyOrder), b(updateSend), b(checkSend), b(sendFlow), b(verifyFlow), b(genCode), b(ownCache), b(nonceLoop))
-	if err := gofacts.WriteIfChanged(filepath.Join(leanDir, "Nv/Gen/C19.lean"), out); err != nil {
-		fmt.Fprintln(os.Stderr, err)
-		os.Exit(2)
-	}
-	fmt.Printf("extract C19: sendKeyFmt=%s verifyKeyFmt=%s nonceBound=%s facts(verifyCountsFirst,verifyOrder,updateSendShape,checkSendShape,sendFlow,verifyFlow,genCodeShape,ownCache,nonceLoop)=%v,%v,%v,%v,%v,%v,%v,%v,%v\n",
-		sendFmt, verFmt, bound, countsFirst, verifyOrder, updateSend, checkSend, sendFlow, verifyFlow, genCode, ownCache, nonceLoop)
 }
 
 // ---------------------------------------------------------------- runner
@@ -254,8 +56,9 @@ func (f *fakeSMS) SendCode(areaCode, phone, code string) error {
 }
 
 type params struct {
+	cap                       int // CacheSize
 	mock                      bool
-	codeLen                   int
+	codeLen                   int // may be negative (out of the property's domain; both sides still agree)
 	maxc, maxv                int
 	ttlx, minb, winr, smsfail bool
 }
@@ -266,6 +69,10 @@ type pairState struct {
 	hasCode  bool
 	hash     string // hash returned by the last accepted send
 	attempts int    // verify calls for this pair since its last accepted send
+	// eviction bookkeeping, independent of the model: operations on other pairs since this pair's entry was last moved to
+	// the front (accepted send, or verify that found it). While that number is below CacheSize the entry cannot have been evicted.
+	othersSince  int
+	maybeEvicted bool
 }
 
 type sess struct {
@@ -329,11 +136,11 @@ func parseInt(s string) (int, bool) {
 
 func parseNew(f []string) (params, bool) {
 	var p params
-	if len(f) != 8 {
+	if len(f) != 9 {
 		return p, false
 	}
-	names := []string{"mock", "len", "maxc", "maxv", "ttlx", "minb", "winr", "smsfail"}
-	vals := make([]string, 8)
+	names := []string{"cap", "mock", "len", "maxc", "maxv", "ttlx", "minb", "winr", "smsfail"}
+	vals := make([]string, 9)
 	for i, n := range names {
 		v, ok := field(n, f[i])
 		if !ok {
@@ -341,15 +148,16 @@ func parseNew(f []string) (params, bool) {
 		}
 		vals[i] = v
 	}
-	var ok [8]bool
-	p.mock, ok[0] = parseBool(vals[0], true)
-	p.codeLen, ok[1] = parseNat(vals[1])
-	p.maxc, ok[2] = parseInt(vals[2])
-	p.maxv, ok[3] = parseInt(vals[3])
-	p.ttlx, ok[4] = parseBool(vals[4], true)
-	p.minb, ok[5] = parseBool(vals[5], true)
-	p.winr, ok[6] = parseBool(vals[6], true)
-	p.smsfail, ok[7] = parseBool(vals[7], true)
+	var ok [9]bool
+	p.cap, ok[0] = parseNat(vals[0])
+	p.mock, ok[1] = parseBool(vals[1], true)
+	p.codeLen, ok[2] = parseInt(vals[2])
+	p.maxc, ok[3] = parseInt(vals[3])
+	p.maxv, ok[4] = parseInt(vals[4])
+	p.ttlx, ok[5] = parseBool(vals[5], true)
+	p.minb, ok[6] = parseBool(vals[6], true)
+	p.winr, ok[7] = parseBool(vals[7], true)
+	p.smsfail, ok[8] = parseBool(vals[8], true)
 	for _, o := range ok {
 		if !o {
 			return p, false
@@ -358,16 +166,22 @@ func parseNew(f []string) (params, bool) {
 	return p, true
 }
 
-const hour1000 = tex.Duration(1000 * time.Hour)
+// never is the "never elapses" duration: about 106.75 days, far longer than any run, and chosen so that a unit slip by
+// a factor 1000 overflows int64 into a negative duration (never*1000 = -9223372036854775616), i.e. flips the regime to "always".
+// The "always" durations are -1ns (TTL, CounterDuration; a slip by /1000 truncates to 0 and flips the fresh-entry window test)
+// and 0 (MinInterval never blocks).
+const never = tex.Duration(9223372036854776)
+
+var _ = time.Duration(never) // tex.Duration is a time.Duration in nanoseconds (fact durationIdentity)
 
 func (s *sess) start(p params) {
-	cfg := &vcode.Config{CacheSize: 100000, Mock: p.mock, CodeLen: p.codeLen, MaxCount: p.maxc, MaxVerifyCount: p.maxv,
-		TTL: hour1000, MinInterval: 0, CounterDuration: hour1000}
+	cfg := &vcode.Config{CacheSize: int64(p.cap), Mock: p.mock, CodeLen: p.codeLen, MaxCount: p.maxc, MaxVerifyCount: p.maxv,
+		TTL: never, MinInterval: 0, CounterDuration: never}
 	if p.ttlx {
 		cfg.TTL = tex.Duration(-1)
 	}
 	if p.minb {
-		cfg.MinInterval = hour1000
+		cfg.MinInterval = never
 	}
 	if p.winr {
 		cfg.CounterDuration = tex.Duration(-1)
@@ -388,8 +202,71 @@ func (s *sess) pair(a, p string) *pairState {
 	return s.pairs[k]
 }
 
+// bump records an operation on pair (a, p): every other pair's entry may have moved one position towards the back.
+func (s *sess) bump(a, p string) {
+	for k, q := range s.pairs {
+		if k != [2]string{a, p} {
+			q.othersSince++
+			if q.othersSince >= s.p.cap {
+				q.maybeEvicted = true
+			}
+		}
+	}
+}
+
+// evictable: the pair's entry may have been evicted since its last accepted send (then nothing can be said about it).
+func (s *sess) evictable(ps *pairState) bool { return s.p.cap <= 0 || ps.maybeEvicted }
+
+// sharesKey is a behavioural probe on a fresh instance of the implementation: a code is sent to (a2, p2) and then (a1, p1),
+// to which nothing was sent, is verified. Any answer but "not exist" means the lookup of (a1, p1) found the entry of (a2, p2):
+// the two pairs share a cache key.
+func sharesKey(a1, p1, a2, p2 string) (shared bool) {
+	defer func() {
+		if r := recover(); r != nil {
+			shared = false
+		}
+	}()
+	cfg := &vcode.Config{CacheSize: 16, Mock: true, CodeLen: 0, MaxCount: 3, MaxVerifyCount: 3, TTL: never, MinInterval: 0, CounterDuration: never}
+	l := vcode.NewSimpleLogic(cfg, &fakeSMS{}, nil)
+	h, err := l.SendSMSCode(a2, p2)
+	if err != nil {
+		return false
+	}
+	return !errors.Is(l.VerifySMSCode(a1, p1, "", h), vcode.ErrVerifyCodeNotExist)
+}
+
+// partner finds another pair of this script that the implementation stores under the same cache key as (a, p).
+func (s *sess) partner(a, p string) (string, bool) {
+	var keys [][2]string
+	for k := range s.pairs {
+		if k != [2]string{a, p} {
+			keys = append(keys, k)
+		}
+	}
+	sort.Slice(keys, func(i, j int) bool { return keys[i][0]+"\x00"+keys[i][1] < keys[j][0]+"\x00"+keys[j][1] })
+	for _, k := range keys {
+		if sharesKey(a, p, k[0], k[1]) {
+			return fmt.Sprintf("(%q,%q)", k[0], k[1]), true
+		}
+	}
+	return "", false
+}
+
+// hitPair reports a violation observed on pair (a, p). When the script also uses a pair that the implementation keeps
+// under the same cache key (probe sharesKey), the root cause is the key: one finding key for all its symptoms.
+func (s *sess) hitPair(a, p, site, what, msg string) {
+	if q, ok := s.partner(a, p); ok {
+		s.hit("cacheKey", "distinct-pairs-share-key", msg+fmt.Sprintf(" — probe: a code sent to pair %s of this script is found when (%q,%q) is verified, the two pairs share one cache key", q, a, p))
+		return
+	}
+	s.hit(site, what, msg)
+}
+
 // mockSpec is the documented mock code: the last n characters of the phone, left-padded with '0'.
 func mockSpec(phone string, n int) string {
+	if n < 0 {
+		return ""
+	}
 	if len(phone) >= n {
 		return phone[len(phone)-n:]
 	}
@@ -410,16 +287,14 @@ func (s *sess) send(a, p string) (out string) {
 		}()
 		hash, err = s.logic.SendSMSCode(a, p)
 	}()
+	defer s.bump(a, p)
 	if panicked {
 		return "panic"
 	}
-	accepted := false
 	switch {
 	case err == nil:
-		accepted = true
 		out = "ok"
 	case errors.Is(err, errSMS):
-		accepted = true
 		out = "smsfail"
 	case errors.Is(err, vcode.ErrSendTooFreq):
 		return "err:tooFreq"
@@ -428,13 +303,16 @@ func (s *sess) send(a, p string) (out string) {
 	default:
 		return "err:other"
 	}
-	_ = accepted
 	// monitors on an accepted send
-	if s.p.minb && ps.accepted >= 1 {
-		s.hit("SendSMSCode", "send-limit-not-enforced", fmt.Sprintf("send to (%q,%q) accepted although an earlier send was accepted and the minimum interval (1000h) has not passed", a, p))
-	}
-	if !s.p.winr && ps.accepted >= s.p.maxc+1 {
-		s.hit("SendSMSCode", "send-limit-not-enforced", fmt.Sprintf("send number %d to (%q,%q) accepted within one counter window, MaxCount=%d (the code admits MaxCount+1)", ps.accepted+1, a, p, s.p.maxc))
+	if s.evictable(ps) {
+		ps.accepted = 0 // the entry may have been evicted: interval and window legitimately start over
+	} else {
+		if s.p.minb && ps.accepted >= 1 {
+			s.hitPair(a, p, "SendSMSCode", "min-interval-not-enforced", fmt.Sprintf("send to (%q,%q) accepted although an earlier send was accepted and the minimum interval (106 days) has not passed", a, p))
+		}
+		if !s.p.winr && ps.accepted >= s.p.maxc+1 {
+			s.hitPair(a, p, "SendSMSCode", "count-limit-not-enforced", fmt.Sprintf("send number %d to (%q,%q) accepted within one counter window, MaxCount=%d (the code admits MaxCount+1)", ps.accepted+1, a, p, s.p.maxc))
+		}
 	}
 	for _, h := range s.hashes {
 		if h == hash {
@@ -452,7 +330,7 @@ func (s *sess) send(a, p string) (out string) {
 			s.hit("SendSMSCode", "code-not-sent", fmt.Sprintf("accepted send to (%q,%q): sender calls %d, last call (%q,%q)", a, p, s.sms.calls-calls, s.sms.area, s.sms.phone))
 		} else {
 			code = s.sms.code
-			if len(code) != s.p.codeLen {
+			if s.p.codeLen >= 0 && len(code) != s.p.codeLen {
 				s.hit("genCode", "code-length", fmt.Sprintf("CodeLen=%d, generated code %q", s.p.codeLen, code))
 			}
 			for _, c := range code {
@@ -467,6 +345,7 @@ func (s *sess) send(a, p string) (out string) {
 	s.codes = append(s.codes, code)
 	ps.accepted++
 	ps.code, ps.hasCode, ps.hash, ps.attempts = code, true, hash, 0
+	ps.othersSince, ps.maybeEvicted = 0, false
 	if hash == "" {
 		return out + " h-"
 	}
@@ -544,6 +423,7 @@ func (s *sess) verify(a, p, cw, hw string) string {
 		}()
 		err = s.logic.VerifySMSCode(a, p, code, hash)
 	}()
+	defer s.bump(a, p)
 	if panicked {
 		return "panic"
 	}
@@ -569,24 +449,27 @@ func (s *sess) verify(a, p, cw, hw string) string {
 	if out == "ok" {
 		switch {
 		case ps.accepted == 0:
-			s.hit("VerifySMSCode", "wrong-input-accepted", desc+": nothing was sent to this pair")
+			s.hitPair(a, p, "VerifySMSCode", "wrong-input-accepted", desc+": nothing was sent to this pair")
 		case !right:
-			s.hit("VerifySMSCode", "wrong-input-accepted", desc+fmt.Sprintf(": current code of the pair is %q, code or hash differ", ps.code))
+			s.hitPair(a, p, "VerifySMSCode", "wrong-input-accepted", desc+fmt.Sprintf(": current code of the pair is %q, code or hash differ", ps.code))
 		case s.p.ttlx:
 			s.hit("VerifySMSCode", "wrong-input-accepted", desc+": the lifetime is over (TTL < 0)")
 		}
 		if ps.accepted > 0 && attempt > s.p.maxv {
-			s.hit("VerifySMSCode", "attempts-not-bounded", desc+": accepted beyond the attempt limit")
+			s.hitPair(a, p, "VerifySMSCode", "attempts-not-bounded", desc+": accepted beyond the attempt limit")
 		}
-	} else if right && !s.p.ttlx && attempt <= s.p.maxv {
+	} else if right && !s.p.ttlx && attempt <= s.p.maxv && !s.evictable(ps) {
 		if out == "err:retryLimit" && ps.accepted >= 2 {
-			s.hit("SendSMSCode", "attempts-not-reset", desc+": right code and hash refused although a new code was sent")
+			s.hitPair(a, p, "SendSMSCode", "attempts-not-reset", desc+": right code and hash refused although a new code was sent")
 		} else {
-			s.hit("VerifySMSCode", "sent-code-never-verifies", desc+": right code and returned hash, within lifetime and attempt limit")
+			s.hitPair(a, p, "VerifySMSCode", "sent-code-never-verifies", desc+": right code and returned hash, within lifetime and attempt limit, entry not evictable")
 		}
 	}
 	if ps.accepted > 0 {
 		ps.attempts++
+	}
+	if out != "err:notExist" {
+		ps.othersSince = 0 // the entry was found: Get moved it to the front
 	}
 	return out
 }
@@ -793,12 +676,16 @@ func b01(b bool) string {
 }
 
 func newLine(p params) string {
-	return fmt.Sprintf("new mock=%s len=%d maxc=%d maxv=%d ttlx=%s minb=%s winr=%s smsfail=%s", b01(p.mock), p.codeLen, p.maxc, p.maxv,
+	return fmt.Sprintf("new cap=%d mock=%s len=%d maxc=%d maxv=%d ttlx=%s minb=%s winr=%s smsfail=%s", p.cap, b01(p.mock), p.codeLen, p.maxc, p.maxv,
 		b01(p.ttlx), b01(p.minb), b01(p.winr), b01(p.smsfail))
 }
 
 func genParams(r *rng.R) params {
-	return params{mock: r.Bool(), codeLen: r.PickInt(0, 1, 4, 6, 25), maxc: r.PickInt(-1, 0, 1, 2, 3, 3), maxv: r.PickInt(-1, 0, 1, 2, 3, 3, 5),
+	cap := 100000
+	if r.Chance(1, 6) {
+		cap = r.PickInt(0, 1, 2, 2, 3, 3, 4)
+	}
+	return params{cap: cap, mock: r.Bool(), codeLen: r.PickInt(0, 1, 4, 6, 25, 4, 6, 1, 25, 0, -1), maxc: r.PickInt(-1, 0, 1, 2, 3, 3), maxv: r.PickInt(-1, 0, 1, 2, 3, 3, 5),
 		ttlx: r.Chance(1, 6), minb: r.Chance(1, 5), winr: r.Chance(1, 3), smsfail: r.Chance(1, 6)}
 }
 
@@ -810,30 +697,33 @@ type gen struct {
 	search bool
 }
 
-// pair universe. ("1","23") / ("12","3") collide under a "%s%s" key; "7-7" has a dash inside the phone.
-// The tokens of `aliasPhones` make a "%s%s" verify key equal a "%s-%s" send key of another pair
-// (("1","2-3") ~ ("12","3"), ("1","-23") ~ ("1","23")); they are used in the search tier only (see docs/C19.md).
-var areas = []string{"1", "12", "86"}
-var phones = []string{"23", "3", "5551234", "7-7", "13800138000"}
-var aliasPhones = []string{"2-3", "-23", "_"}
+// pair universe: area codes and phones with and without dashes, and empty strings (`_`), in every tier.
+// `confusable` lists groups of distinct pairs that a joined key cannot tell apart: with a dash (first three) or
+// without any separator (last).
+var areas = []string{"1", "12", "86", "1-2", "1-", "-", "_", "1-809"}
+var phones = []string{"23", "3", "5551234", "7-7", "13800138000", "2-3", "-3", "-23", "_"}
+var confusable = [][][2]string{
+	{{"1-2", "3"}, {"1", "2-3"}},
+	{{"1-", "3"}, {"1", "-3"}},
+	{{"_", "-3"}, {"-", "3"}},
+	{{"1-2", "-3"}, {"1", "2--3"}, {"1-2-", "3"}},
+	{{"1", "23"}, {"12", "3"}, {"_", "123"}},
+}
 
 func (g *gen) pickPairs() {
 	r := g.r
 	g.pairs = nil
 	if r.Chance(1, 2) {
-		g.pairs = append(g.pairs, [2]string{"1", "23"}, [2]string{"12", "3"})
+		grp := confusable[r.Intn(len(confusable))]
+		g.pairs = append(g.pairs, grp...)
+		// two independent random codes of a pair-confusing implementation must not be equal by accident
+		if !g.p.mock && g.p.codeLen > 0 && g.p.codeLen < 20 {
+			g.p.codeLen = 25
+		}
 	}
 	n := r.Range(1, 4)
 	for i := 0; i < n; i++ {
-		ph := phones[r.Intn(len(phones))]
-		if g.search && r.Chance(1, 3) {
-			ph = aliasPhones[r.Intn(len(aliasPhones))]
-		}
-		ar := areas[r.Intn(len(areas))]
-		if g.search && r.Chance(1, 10) {
-			ar = "_"
-		}
-		g.pairs = append(g.pairs, [2]string{ar, ph})
+		g.pairs = append(g.pairs, [2]string{areas[r.Intn(len(areas))], phones[r.Intn(len(phones))]})
 	}
 }
 
@@ -983,6 +873,32 @@ func genCross(r *rng.R) corr.Case {
 	return corr.Case{Tag: "cross", Lines: lines}
 }
 
+// evict: a small cache and more pairs than it holds — entries are evicted, which deletes sent codes and restarts the limits.
+func genEvict(r *rng.R) corr.Case {
+	g := &gen{r: r, p: genParams(r)}
+	g.p.cap = r.PickInt(1, 2, 2, 3, 3, 0)
+	g.p.ttlx = false
+	g.p.minb, g.p.winr = r.Chance(1, 2), r.Chance(1, 4)
+	g.p.maxv = r.PickInt(2, 3, 5)
+	g.pickPairs()
+	for len(g.pairs) < g.p.cap+2 {
+		g.pairs = append(g.pairs, [2]string{areas[r.Intn(len(areas))], phones[r.Intn(len(phones))]})
+	}
+	lines := []string{newLine(g.p)}
+	for i := r.Range(6, 24); i > 0; i-- {
+		p := g.anyPair()
+		switch r.Intn(5) {
+		case 0, 1:
+			lines = append(lines, g.sendLine(p))
+		case 2, 3:
+			lines = append(lines, g.verifyLine(p, "cur", "hcur"))
+		default:
+			lines = append(lines, g.verifyLine(p, g.codeArg(), g.hashArg()))
+		}
+	}
+	return corr.Case{Tag: "evict", Lines: lines}
+}
+
 var bases = []string{"0123456789", "0123456789", "ab", "a", "abc", "_", "aab", "abcdefghijklmnopqrstuvwxyz", "01"}
 
 func genNonce(r *rng.R) corr.Case {
@@ -1023,9 +939,10 @@ func genSample(r *rng.R) corr.Case {
 }
 
 func genMalformed(r *rng.R) corr.Case {
-	lines := []string{r.Pick(newLine(genParams(r)), newLine(genParams(r)), "new mock=2 len=1 maxc=1 maxv=1 ttlx=0 minb=0 winr=0 smsfail=0",
-		"new mock=1 len=x maxc=1 maxv=1 ttlx=0 minb=0 winr=0 smsfail=0", "new", "new len=1 mock=1 maxc=1 maxv=1 ttlx=0 minb=0 winr=0 smsfail=0",
-		"new mock=1 len=1 maxc=+1 maxv=1 ttlx=0 minb=0 winr=0", "new mock=1 len=-1 maxc=1 maxv=1 ttlx=0 minb=0 winr=0 smsfail=0")}
+	lines := []string{r.Pick(newLine(genParams(r)), newLine(genParams(r)), "new cap=100000 mock=2 len=1 maxc=1 maxv=1 ttlx=0 minb=0 winr=0 smsfail=0",
+		"new cap=100000 mock=1 len=x maxc=1 maxv=1 ttlx=0 minb=0 winr=0 smsfail=0", "new", "new len=1 mock=1 maxc=1 maxv=1 ttlx=0 minb=0 winr=0 smsfail=0", "new mock=1 len=1 maxc=1 maxv=1 ttlx=0 minb=0 winr=0 smsfail=0",
+		"new cap=-1 mock=1 len=1 maxc=1 maxv=1 ttlx=0 minb=0 winr=0 smsfail=0", "new cap=x mock=1 len=1 maxc=1 maxv=1 ttlx=0 minb=0 winr=0 smsfail=0",
+		"new cap=100000 mock=1 len=1 maxc=+1 maxv=1 ttlx=0 minb=0 winr=0", "new cap=100000 mock=1 len=-1 maxc=1 maxv=1 ttlx=0 minb=0 winr=0 smsfail=0")}
 	bad := []string{"send 1", "send", "send 1 23 4", "verify 1 23 cur", "verify 1 23 cur hcur x", "verify 1 23 cux hcur", "verify 1 23 cur g1",
 		"verify 1 23 c hcur", "verify 1 23 c1x h1", "verify 1 23 cur h1x", "frob 1 2", "", "nonce ab 1", "nonce ab x 1", "nonce ab 1 1,,2", "nonce ab 1 1,-2",
 		"cover", "cover ab cd", "sample ab 1", "sample ab 0 100", "sample _ 1 1000", "sample ab 1 x", "SEND 1 23", "send 1 23", "verify 1 23 cur hcur",
@@ -1037,9 +954,22 @@ func genMalformed(r *rng.R) corr.Case {
 }
 
 func fixedCases() []corr.Case {
-	std := "new mock=0 len=6 maxc=3 maxv=3 ttlx=0 minb=0 winr=0 smsfail=0"
-	mock := "new mock=1 len=4 maxc=3 maxv=3 ttlx=0 minb=0 winr=0 smsfail=0"
+	std := "new cap=100000 mock=0 len=6 maxc=3 maxv=3 ttlx=0 minb=0 winr=0 smsfail=0"
+	mock := "new cap=100000 mock=1 len=4 maxc=3 maxv=3 ttlx=0 minb=0 winr=0 smsfail=0"
 	return []corr.Case{
+		// the dashed key confuses ("1-2","3") with ("1","2-3"): the code sent to one verifies for the other
+		{Tag: "fixed-key-injective", Lines: []string{"new cap=100000 mock=1 len=1 maxc=3 maxv=3 ttlx=0 minb=0 winr=0 smsfail=0", "send 1-2 3", "verify 1 2-3 lit:3 h1"}},
+		{Tag: "fixed-key-injective", Lines: []string{"new cap=100000 mock=0 len=25 maxc=3 maxv=3 ttlx=0 minb=0 winr=0 smsfail=0", "send 1- 3", "send 1 -3", "verify 1- 3 cur hcur", "verify 1 -3 cur hcur",
+			"send _ -3", "send - 3", "verify _ -3 cur hcur", "send _ _", "verify _ _ cur hcur"}},
+		// a bounded cache forgets (observation): CacheSize 2, two other pairs evict the entry
+		{Tag: "fixed-evict", Lines: []string{"new cap=2 mock=0 len=6 maxc=1 maxv=2 ttlx=0 minb=1 winr=0 smsfail=0", "send 1 1", "send 1 1", "send 1 2", "send 1 3", "verify 1 1 cur hcur", "send 1 1"}},
+		{Tag: "fixed-evict", Lines: []string{"new cap=2 mock=0 len=6 maxc=1 maxv=2 ttlx=0 minb=0 winr=0 smsfail=0", "send 1 1", "send 1 2", "verify 1 1 lit:x hx", "send 1 3", "verify 1 1 cur hcur", "verify 1 2 cur hcur"}},
+		{Tag: "fixed-evict", Lines: []string{"new cap=0 mock=1 len=2 maxc=0 maxv=2 ttlx=0 minb=1 winr=0 smsfail=0", "send 1 23", "verify 1 23 cur hcur", "send 1 23"}},
+		{Tag: "fixed-evict", Lines: []string{"new cap=1 mock=1 len=2 maxc=0 maxv=2 ttlx=0 minb=1 winr=0 smsfail=0", "send 1 23", "verify 1 23 cur hcur", "send 1 23", "send 1 24", "send 1 23"}},
+		// negative CodeLen (outside the property's domain): mock mode panics, the real sender issues the empty code
+		{Tag: "fixed-neglen", Lines: []string{"new cap=100000 mock=1 len=-1 maxc=3 maxv=3 ttlx=0 minb=0 winr=0 smsfail=0", "send 1 23", "verify 1 23 cur hcur"}},
+		{Tag: "fixed-neglen", Lines: []string{"new cap=100000 mock=0 len=-1 maxc=3 maxv=3 ttlx=0 minb=0 winr=0 smsfail=0", "send 1 23", "verify 1 23 cur hcur", "verify 1 23 lit: h1"}},
+		{Tag: "fixed-neglen", Lines: []string{"new cap=100000 mock=1 len=-2 maxc=-1 maxv=3 ttlx=0 minb=0 winr=0 smsfail=0", "send 1 23"}},
 		{Tag: "fixed-F17", Lines: []string{std, "send 86 5551234", "verify 86 5551234 cur hcur"}},
 		{Tag: "fixed-F17", Lines: []string{mock, "send 86 5551234", "verify 86 5551234 lit:1234 h1"}},
 		{Tag: "fixed-F18", Lines: []string{std, "cover 0123456789", "nonce 0123456789 3 9,19,29", "nonce 0123456789 4 0,8,10,7"}},
@@ -1047,18 +977,18 @@ func fixedCases() []corr.Case {
 		{Tag: "fixed-F18", Lines: []string{std, "nonce a 1 0", "cover a", "nonce _ 1 0", "nonce _ 0 -", "nonce ab -1 1", "cover _"}},
 		{Tag: "fixed-attempts", Lines: []string{std, "send 1 23", "verify 1 23 wrong hcur", "verify 1 23 wrong hcur", "verify 1 23 wrong hcur", "verify 1 23 cur hcur",
 			"send 1 23", "verify 1 23 cur hcur", "verify 1 23 cur hcur", "verify 1 23 cur hcur", "verify 1 23 cur hcur"}},
-		{Tag: "fixed-attempts", Lines: []string{"new mock=1 len=2 maxc=3 maxv=0 ttlx=0 minb=0 winr=0 smsfail=0", "send 1 23", "verify 1 23 cur hcur"}},
-		{Tag: "fixed-attempts", Lines: []string{"new mock=1 len=2 maxc=3 maxv=-1 ttlx=0 minb=0 winr=0 smsfail=0", "send 1 23", "verify 1 23 lit:23 h1"}},
-		{Tag: "fixed-limits", Lines: []string{"new mock=1 len=2 maxc=1 maxv=3 ttlx=0 minb=0 winr=0 smsfail=0", "send 1 23", "send 1 23", "send 1 23", "send 12 3", "verify 1 23 cur hcur"}},
-		{Tag: "fixed-limits", Lines: []string{"new mock=1 len=2 maxc=1 maxv=3 ttlx=0 minb=0 winr=1 smsfail=0", "send 1 23", "send 1 23", "send 1 23", "send 1 23"}},
-		{Tag: "fixed-limits", Lines: []string{"new mock=1 len=2 maxc=-1 maxv=3 ttlx=0 minb=0 winr=0 smsfail=0", "send 1 23", "verify 1 23 cur hcur"}},
-		{Tag: "fixed-limits", Lines: []string{"new mock=0 len=6 maxc=3 maxv=3 ttlx=0 minb=1 winr=0 smsfail=0", "send 1 23", "send 1 23", "send 12 3", "verify 1 23 cur hcur"}},
-		{Tag: "fixed-ttl", Lines: []string{"new mock=0 len=6 maxc=3 maxv=3 ttlx=1 minb=0 winr=0 smsfail=0", "send 1 23", "verify 1 23 cur hcur", "verify 1 23 wrong hcur", "verify 1 23 cur hx"}},
-		{Tag: "fixed-smsfail", Lines: []string{"new mock=0 len=6 maxc=3 maxv=3 ttlx=0 minb=0 winr=0 smsfail=1", "send 1 23", "verify 1 23 cur hcur", "send 1 23", "verify 1 23 cur h1"}},
+		{Tag: "fixed-attempts", Lines: []string{"new cap=100000 mock=1 len=2 maxc=3 maxv=0 ttlx=0 minb=0 winr=0 smsfail=0", "send 1 23", "verify 1 23 cur hcur"}},
+		{Tag: "fixed-attempts", Lines: []string{"new cap=100000 mock=1 len=2 maxc=3 maxv=-1 ttlx=0 minb=0 winr=0 smsfail=0", "send 1 23", "verify 1 23 lit:23 h1"}},
+		{Tag: "fixed-limits", Lines: []string{"new cap=100000 mock=1 len=2 maxc=1 maxv=3 ttlx=0 minb=0 winr=0 smsfail=0", "send 1 23", "send 1 23", "send 1 23", "send 12 3", "verify 1 23 cur hcur"}},
+		{Tag: "fixed-limits", Lines: []string{"new cap=100000 mock=1 len=2 maxc=1 maxv=3 ttlx=0 minb=0 winr=1 smsfail=0", "send 1 23", "send 1 23", "send 1 23", "send 1 23"}},
+		{Tag: "fixed-limits", Lines: []string{"new cap=100000 mock=1 len=2 maxc=-1 maxv=3 ttlx=0 minb=0 winr=0 smsfail=0", "send 1 23", "verify 1 23 cur hcur"}},
+		{Tag: "fixed-limits", Lines: []string{"new cap=100000 mock=0 len=6 maxc=3 maxv=3 ttlx=0 minb=1 winr=0 smsfail=0", "send 1 23", "send 1 23", "send 12 3", "verify 1 23 cur hcur"}},
+		{Tag: "fixed-ttl", Lines: []string{"new cap=100000 mock=0 len=6 maxc=3 maxv=3 ttlx=1 minb=0 winr=0 smsfail=0", "send 1 23", "verify 1 23 cur hcur", "verify 1 23 wrong hcur", "verify 1 23 cur hx"}},
+		{Tag: "fixed-smsfail", Lines: []string{"new cap=100000 mock=0 len=6 maxc=3 maxv=3 ttlx=0 minb=0 winr=0 smsfail=1", "send 1 23", "verify 1 23 cur hcur", "send 1 23", "verify 1 23 cur h1"}},
 		{Tag: "fixed-collide", Lines: []string{mock, "send 1 23", "send 12 3", "verify 1 23 cur hcur", "verify 12 3 cur hcur", "verify 12 3 c1 h1", "verify 1 23 c2 h2"}},
-		{Tag: "fixed-mock", Lines: []string{"new mock=1 len=6 maxc=3 maxv=3 ttlx=0 minb=0 winr=0 smsfail=1", "send 1 23", "verify 1 23 lit:000023 h1", "verify 1 23 lit:23 h1", "send 1 7-7", "verify 1 7-7 lit:0007-7 hcur"}},
-		{Tag: "fixed-len0", Lines: []string{"new mock=0 len=0 maxc=3 maxv=3 ttlx=0 minb=0 winr=0 smsfail=0", "send 1 23", "verify 1 23 lit: hcur", "verify 1 23 cur hcur", "verify 1 23 wrong hcur"}},
-		{Tag: "fixed-len0", Lines: []string{"new mock=1 len=0 maxc=3 maxv=3 ttlx=0 minb=0 winr=0 smsfail=0", "send 1 23", "verify 1 23 lit: hcur", "verify 1 23 cur h-"}},
+		{Tag: "fixed-mock", Lines: []string{"new cap=100000 mock=1 len=6 maxc=3 maxv=3 ttlx=0 minb=0 winr=0 smsfail=1", "send 1 23", "verify 1 23 lit:000023 h1", "verify 1 23 lit:23 h1", "send 1 7-7", "verify 1 7-7 lit:0007-7 hcur"}},
+		{Tag: "fixed-len0", Lines: []string{"new cap=100000 mock=0 len=0 maxc=3 maxv=3 ttlx=0 minb=0 winr=0 smsfail=0", "send 1 23", "verify 1 23 lit: hcur", "verify 1 23 cur hcur", "verify 1 23 wrong hcur"}},
+		{Tag: "fixed-len0", Lines: []string{"new cap=100000 mock=1 len=0 maxc=3 maxv=3 ttlx=0 minb=0 winr=0 smsfail=0", "send 1 23", "verify 1 23 lit: hcur", "verify 1 23 cur h-"}},
 	}
 }
 
@@ -1066,14 +996,16 @@ func genCase(r *rng.R, tier string, i int) corr.Case {
 	search := tier == "search"
 	x := r.Intn(100)
 	switch {
-	case x < 40:
+	case x < 36:
 		return genHistory(r, search)
-	case x < 58:
+	case x < 52:
 		return genAttempts(r)
-	case x < 72:
+	case x < 64:
 		return genLimits(r)
-	case x < 82:
+	case x < 73:
 		return genCross(r)
+	case x < 82:
+		return genEvict(r)
 	case x < 92:
 		return genNonce(r)
 	case x < 94:
@@ -1112,14 +1044,15 @@ func spec() corr.Spec {
 			}
 			return (acc && ver) || other
 		},
-		Rule: "send/verify histories over up to 6 (area, phone) pairs (incl. the pairs (1,23)/(12,3) whose undashed keys collide), mock and real-sender modes, code lengths {0,1,4,6,25}, limits -1..3, all always/never regimes, failing sender; classes: random histories, attempt-limit boundaries, send-limit boundaries, cross-pair code/hash reuse, scripted genNonceStr, sampled SecGenNonceStr, malformed lines; non-trivial = an accepted send followed by a verify, or a nonce/cover/sample line that was executed; distinct = distinct script text",
+		Rule: "send/verify histories over up to 7 (area, phone) pairs — area codes and phones with and without '-', empty strings, and groups of pairs that a dashed or an unseparated key confuses — mock and real-sender modes, code lengths {-1,0,1,4,6,25}, limits -1..5, all always/never regimes, failing sender, CacheSize 100000 or 0..4 (eviction); classes: random histories, attempt-limit boundaries, send-limit boundaries, cross-pair code/hash reuse, small-cache eviction, scripted genNonceStr, sampled SecGenNonceStr, malformed lines; non-trivial = an accepted send followed by a verify, or a nonce/cover/sample line that was executed; distinct = distinct script text",
 		Assumptions: []string{
-			"the LRU cache inside NewSimpleLogic does not evict (CacheSize = 100000 in every run; NewSimpleLogic ignores the cache passed in)",
-			"durations are used in their always/never regimes only (TTL -1ns | 1000h, MinInterval 0 | 1000h, CounterDuration -1ns | 1000h); the monotonic clock does not go backwards and a script runs in far less than 1000h",
+			"durations are used in their always/never regimes only: TTL and CounterDuration -1ns | 9223372036854776ns (106.75 days), MinInterval 0 | 9223372036854776ns; the monotonic clock does not go backwards and a script runs in far less than 106 days. The 'never' value is chosen so that a unit slip by x1000 overflows into the 'always' regime; the unit itself is the pinned fact durationIdentity (tex.Duration.Duration() = time.Duration(i))",
+			"the cache is cache.LRUCache with capacity CacheSize and entries of size 1 (facts sizeIsOne, simpleCacheIsLRU; NewSimpleLogic ignores the cache passed in: fact ownCache); its semantics (Set moves to front and evicts from the back, Get promotes, Peek does not) are modelled and exercised with CacheSize 0..4",
 			"random.MD5UUID() returns a fresh non-empty string per call (checked by monitor C19:MD5UUID:hash-repeated on every script); modelled as the sequence number of the accepted send",
-			"codes of the real-sender mode are random: modelled symbolically; `c<k>` code arguments are generated only in mock mode or with CodeLen >= 20, `lit:` digit codes only in mock mode, so that two independent random codes are equal with probability < 1e-20",
-			"sample lines draw count*len >= 400*|alphabet| characters from SecGenNonceStr (seeded by crypto/rand, not by VERIF_SEED): a reachable character is missed with probability < 1e-100",
-			"area codes, phones and alphabets are ASCII (len() counts bytes, the model counts characters); int counters do not overflow",
+			"codes of the real-sender mode are random: modelled symbolically (text = genNonce over an abstract source); `c<k>` code arguments are generated only in mock mode or with CodeLen >= 20, `lit:` digit codes only in mock mode, scripts with key-confusable pairs use mock mode or CodeLen 0/25, so that two independent random codes are equal with probability < 1e-20",
+			"sample lines draw count*len >= 400*|alphabet| characters from SecGenNonceStr (seeded by crypto/rand, not by VERIF_SEED): a reachable character is missed with probability < 1e-100; that math/rand's Intn(n) can return every value below n is not verified",
+			"area codes, phones and alphabets are ASCII (len() counts bytes, the model counts characters); int counters do not overflow; calls are sequential (vcode has no lock of its own)",
+			"a negative CodeLen is outside the property's domain (mock mode panics, the real sender issues the empty code): mirrored by the model, not judged by the monitors",
 		},
 		Trusted: []string{"fake SMS sender and per-pair bookkeeping in go/cmd/c19 (monitors)"},
 	}
